@@ -103,7 +103,7 @@ func checkC06(c *Ctx) {
 			}
 		})
 		succ := 0
-		_, complete := WalkPaths(cf, PathOpts{}, func(p *Path) bool {
+		_, complete := WalkPathsInl(cf, PathOpts{}, func(p *Path) bool {
 			if !isSuccess(p) {
 				return true
 			}
